@@ -79,6 +79,8 @@ def shards(tier, seed):
     out += [("asgi_seq", k) for k in range(8)]
     # the serialiser families once more in interpreters that run with assert statements compiled away (python -O)
     out += [("python-O", ("extra",)), ("python-O", ("trailing",)), ("python-O", ("data", 0)), ("python-O", ("data", 4)), ("python-O", ("wsgi_seq",))]
+    # ... and in interpreters whose root logger is set to DEBUG (logging.basicConfig(level=logging.DEBUG) in the application)
+    out += [("debug-logging", ("wsgi_seq",)), ("debug-logging", ("charsets",)), ("debug-logging", ("asgi_seq", 0)), ("debug-logging", ("extra",)), ("debug-logging", ("wsgi_threads", 1, 1))]
     return out
 
 
@@ -437,6 +439,9 @@ def run_shard(desc, tier):
     if desc[0] == "python-O":
         from ..core import fresh
         return fresh.call(__name__, tuple(desc[1]), tier, env={"PYTHONOPTIMIZE": "1"})
+    if desc[0] == "debug-logging":
+        from ..core import fresh
+        return fresh.debug_logging(__name__, tuple(desc[1]), tier)
     if desc[0] == "data":
         a0 = ALPHA[desc[1]]
         for n in range(0, MAXLEN[tier]):
@@ -505,6 +510,11 @@ def replay(w):
         from ..core import fresh
         rr = fresh.call(__name__, ("replay-O", {k: v for k, v in w.items() if k != "optimize"}), "quick", env={"PYTHONOPTIMIZE": "1"})
         return bool(rr.viol), {"violations": sorted(rr.viol), "texts": [v[2][:300] for v in rr.viol.values()], "notes": rr.notes[:1]}
+    if w.get("debug_logging"):
+        import logging
+        if logging.getLogger().level != logging.DEBUG:
+            from ..core import fresh
+            return fresh.replay_debug_logging(__name__, w)
     if w["kind"] == "one":
         ev = dict(w["event"])
         data = ev.pop("data", None)
